@@ -686,4 +686,64 @@ theorem wf_norm (p : Msg) (hwf : wf p = true) : wf (norm p) = true := by
         have hr : okRsh ha r = true := by simpa [wf] using hwf
         simp [wf, norm, okRsh_normRsh ha r hr]
 
+/-! ## special tokens inside identifiers (hardening: "text with special leading characters")
+
+Identifiers are opaque octet strings for the model, so `dec_enc` already says that a leading byte-order
+mark, CR LF, NUL … comes back unchanged.  What is left to show is that putting such a token in front of,
+inside or behind a value does not leave the property's range: well-formed UTF-8 is closed under
+concatenation, and the tokens of the harness' dictionary are well-formed. -/
+
+theorem validUtf8_append (a b : Bytes) (ha : validUtf8 a = true) (hb : validUtf8 b = true) :
+    validUtf8 (a ++ b) = true := by
+  fun_induction validUtf8 a with
+  | case1 => simpa using hb
+  | case2 b0 rest hlt ih =>
+    have := ih ha
+    rw [List.cons_append, validUtf8.eq_def]
+    simp [hlt, this]
+  | case3 b0 h1 h2 b1 r ih =>
+    simp only [Bool.and_eq_true] at ha
+    have := ih ha.2
+    simp [validUtf8, h1, h2, this, ha.1]
+  | case4 => simp at ha
+  | case5 b0 h1 h2 h3 b1 b2 r ih =>
+    simp only [Bool.and_eq_true] at ha
+    have := ih ha.2
+    have h4 := ha.1
+    rw [List.cons_append, List.cons_append, List.cons_append, validUtf8.eq_def]
+    simp [h1, h2, h3, this, h4.1, h4.2]
+  | case6 => simp at ha
+  | case7 b0 h1 h2 h3 h4 b1 b2 b3 r ih =>
+    simp only [Bool.and_eq_true] at ha
+    have := ih ha.2
+    obtain ⟨⟨⟨g1, g2⟩, g3⟩, -⟩ := ha
+    simp [validUtf8, h1, h2, h3, h4, this, g1, g2, g3]
+  | case8 => simp at ha
+  | case9 => simp at ha
+
+/-- a token at the start (`pre = []`), in the middle or at the end (`post = []`) of a value, once or
+doubled (`tok = t ++ t`), keeps an identifier in range as long as the 255-octet limit holds -/
+theorem okId_decorate (pre tok post : Bytes) (h1 : validUtf8 pre = true) (h2 : validUtf8 tok = true)
+    (h3 : validUtf8 post = true) (hl : pre.length + tok.length + post.length ≤ 255) :
+    okId (some (pre ++ tok ++ post)) = true := by
+  simp only [okId, Bool.and_eq_true, decide_eq_true_eq]
+  exact ⟨by simp; omega, validUtf8_append _ _ (validUtf8_append _ _ h1 h2) h3⟩
+
+/-- UTF-8 octets of tokens of the harness' dictionary: U+FEFF, U+FFFE, U+FFFF, U+FFFD, CR LF, LF CR, NUL,
+NEL, U+2028, U+200B, combining acute, U+8010, DLE + U+0080 (the CSBK trailer as characters), U+10000,
+U+10FFFF, U+D7FF, U+E000 -/
+def specialTokens : List Bytes :=
+  [[0xEF, 0xBB, 0xBF], [0xEF, 0xBF, 0xBE], [0xEF, 0xBF, 0xBF], [0xEF, 0xBF, 0xBD], [0x0D, 0x0A], [0x0A, 0x0D],
+   [0x00], [0xC2, 0x85], [0xE2, 0x80, 0xA8], [0xE2, 0x80, 0x8B], [0xCC, 0x81], [0xE8, 0x80, 0x90],
+   [0x10, 0xC2, 0x80], [0xF0, 0x90, 0x80, 0x80], [0xF4, 0x8F, 0xBF, 0xBF], [0xED, 0x9F, 0xBF], [0xEE, 0x80, 0x80]]
+
+theorem specialTokens_valid : specialTokens.all validUtf8 = true := by decide
+
+/-- lone surrogates (CESU-8 style `ED A0 80` … `ED BF BF`), overlong forms and values above U+10FFFF are
+not UTF-8: `from_bytes` raises UnicodeDecodeError for them, and `str.encode` never produces them -/
+theorem illFormed_invalid :
+    ([[0xED, 0xA0, 0x80], [0xED, 0xBF, 0xBF], [0xC0, 0x80], [0xE0, 0x80, 0x80], [0xF4, 0x90, 0x80, 0x80],
+      [0xF8, 0x88, 0x80, 0x80], [0xFE], [0xFF], [0x80], [0xC2], [0x10, 0x80]] : List Bytes).all
+      (fun b => !validUtf8 b) = true := by decide
+
 end Dmr.Ars
